@@ -76,6 +76,18 @@ func spec_refPath(t TypeName) string { return t.(*ref).pkgPath }
 func spec_refName(t TypeName) string { return t.(*ref).name }
 func spec_isRef(t TypeName) bool     { _, ok := t.(*ref); return ok }
 
+//@ func TypeName.Pkg
+//@   pure
+//@   note interface method (implemented by *types.TypeName and *ref): assumed a deterministic observer without side effects
+
+//@ func TypeName.Name
+//@   pure
+//@   note interface method: assumed a deterministic observer without side effects
+
+//@ func TypeName.String
+//@   pure
+//@   note interface method: assumed a deterministic observer without side effects
+
 //@ func Ref
 //@   props C15
 //@   ensures spec_isRef(result) && fresh(result) && spec_refPath(result) == pkgPath && spec_refName(result) == name
@@ -85,18 +97,23 @@ func spec_isRef(t TypeName) bool     { _, ok := t.(*ref); return ok }
 //@   ensures Spec_dot(ref) > 0 ==> result1 == nil && spec_isRef(result0) && spec_refPath(result0) == ref[:Spec_dot(ref)] && spec_refName(result0) == ref[Spec_dot(ref)+1:]
 //@   ensures Spec_dot(ref) <= 0 ==> result0 == nil && result1 != nil
 
+// spec_delta: what one byte contributes to the bracket depth.
+func spec_delta(b byte) int {
+	if b == '[' {
+		return 1
+	}
+	if b == ']' {
+		return -1
+	}
+	return 0
+}
+
 // spec_depth(s, i): brackets opened minus brackets closed in s[:i].
 func spec_depth(s string, i int) int {
 	if i <= 0 {
 		return 0
 	}
-	if s[i-1] == '[' {
-		return spec_depth(s, i-1) + 1
-	}
-	if s[i-1] == ']' {
-		return spec_depth(s, i-1) - 1
-	}
-	return spec_depth(s, i-1)
+	return spec_depth(s, i-1) + spec_delta(s[i-1])
 }
 
 //@ func ParseTypeRef
